@@ -13,6 +13,9 @@
  *           so every floating-point operation in any summation order is exact (magnitudes < 2^50 even after the
  *           factor <= 4 of the superposition test).  Oracle: BITWISE equality with the reference recurrence below,
  *           which keeps the complete x[] and y[] histories and uses explicit index arithmetic (no shifting delay line).
+ *   exact cancellation (tf_cancel_case, see the comment there): integer coefficients and inputs (times 2^e) such that the positive and
+ *           the negative terms of a step each sum to at most 2^53 grid units - every subset sum is exact in any order - and the
+ *           output is 1..8 grid units, i.e. below half an ulp of sum|terms| for 1 unit; compared (==) with an __int128 recurrence.
  *   real  : arbitrary real coefficients/inputs.  One-step oracle: the library's k-th output is compared with the
  *           difference equation evaluated in __float128 on the library's OWN previous outputs; a-priori rounding bound
  *           n*eps*sum|terms| (n = number of terms, eps = 2^-52 = twice the unit round-off: the textbook bound for a
@@ -625,6 +628,311 @@ static void tf_exact_cell(vf_rng *r, unsigned nn, unsigned nd, int cls)
         else { VF_COUNT("tf-exact-reconfig-not-reached"); }
         scn_free(&s);
     }
+}
+
+/* ---------------------------------------------------------------- exact regime, "exact cancellation" class
+   The class above keeps sum|terms| below 2^48 grid units, so it never produces a non-zero output that is more than ~48
+   bits below the magnitude of its terms.  This class does exactly that: outputs that are small non-zero numbers (1..8
+   grid units) left over by the EXACT cancellation of terms up to 2^53 times larger.  A deviation there is smaller than
+   half an ulp of sum|terms|, i.e. below every n*eps*sum|terms| tolerance of the real regime: only an exact demand sees it.
+
+   Why the exact demand is sound for EVERY correct implementation, whatever its order of summation
+   (left-to-right, numerator/denominator part separately, pairwise, Kahan, FMA, extended-precision accumulator):
+     * coefficients are integers in -3..3, inputs are integers (times a common power of two 2^e), and by induction all
+       outputs of the exact recurrence are integers times 2^e;  every term t = num[i]*x[k-i] or -den[i]*y[k-1-i] of step k
+       is an integer (times 2^e);
+     * with P = sum of the positive terms and N = sum of the negative terms of step k, the harness only accepts a step
+       when  P <= 2^p  and  |N| <= 2^p  (p = 53, computed in __int128 on the integer model, cx_ok()).  Every partial sum of any
+       summation order is the sum of a SUBSET of the terms (or its negative, for an implementation that accumulates the
+       denominator part with the opposite sign and subtracts), hence an integer in [N, P] (or [-P, -N]), hence an integer of
+       magnitude <= 2^p, hence exactly representable; each single term is such a subset sum, so every product is exact too
+       (also when it is fused into an FMA: the fused result is again a subset sum).  Exactly representable intermediate
+       results are produced without rounding by IEEE-754 arithmetic in every rounding mode and in every wider format.
+     * the common factor 2^e keeps all of this (multiplication by a power of two is exact) as long as nothing over- or
+       underflows: e is restricted so that the grid unit 2^e is a normal number (2^e >= DBL_MIN: every non-zero input, term,
+       partial sum and output is an integer multiple of it, so nothing is ever subnormal) and 2^(e+p+3) is finite
+       (subset sums are <= 2^(e+p); the margin covers an implementation that forms sum|terms| <= 2^(e+p+1) on the side).
+   So the returned sample has to EQUAL the integer model's output (compared with ==: a signed zero is not demanded).
+
+   Which steps are interesting: with |y| = d grid units the suppression-gate condition  |y| < sum|terms| * eps/2  reads
+   d * 2^p < P + |N|, and P + |N| <= 2^(p+1) leaves d = 1 as the only possibility (P in (2^(p-1), 2^p]); steps that satisfy
+   it are counted under "tf-exact-cancellation-below-half-ulp-of-term-sum" (required).  d = 2..8 is generated too (cancellation
+   by 50..52 bits: a coarser gate, e.g. |y| < 4*eps*sum|terms|, trips there).
+
+   Construction: random small-integer "shape" history of 1..6 warm-up steps, multiplied by the integer m that brings
+   max(P, |N|) of the next step (without the num[0]*x[k] term) to a target drawn from (2^(p-1), 2^p), plus a small integer
+   perturbation;  the input x[k] is then SOLVED so that y[k] = d (num[0] = +-1 mostly; for +-2, +-3 the residue d is moved
+   to the next value that makes the division exact);  1..4 more steps follow (solved again, or free inputs) so that the
+   small sample is fed back.  Every step of every run is re-checked with cx_ok(); a draw that fails is rejected and counted. */
+typedef __int128 i128;
+#define CX_MAXL 12u
+typedef struct
+{
+    unsigned nn, nd, L, kc; /* orders, history length, first solved (cancelling) step */
+    int num[4], den[3];
+    i128 x[CX_MAXL], y[CX_MAXL], P[CX_MAXL], N[CX_MAXL]; /* integer model; P/N = sum of the positive / negative terms of step j */
+} cx_t;
+
+static inline i128 cx_abs(i128 v) { return v < 0 ? -v : v; }
+
+/* terms of step j of the integer model (numerator index from i0: i0 = 1 leaves the num[0]*x[j] term out) */
+static void cx_terms(cx_t const *c, unsigned j, unsigned i0, i128 *P, i128 *N)
+{
+    i128 p = 0, n = 0, t;
+    unsigned i;
+    for (i = i0; i < c->nn; ++i)
+    {
+        if (j >= i)
+        {
+            t = (i128)c->num[i] * c->x[j - i];
+            if (t > 0) { p += t; }
+            else { n += t; }
+        }
+    }
+    for (i = 0; i < c->nd; ++i)
+    {
+        if (j >= 1 + i)
+        {
+            t = -((i128)c->den[i] * c->y[j - 1 - i]);
+            if (t > 0) { p += t; }
+            else { n += t; }
+        }
+    }
+    *P = p;
+    *N = n;
+}
+/* step j with x[j] given: fills P, N, y and evaluates THE exactness condition of the file comment */
+static int cx_ok(cx_t *c, unsigned j, int p)
+{
+    i128 const lim = (i128)1 << p;
+    cx_terms(c, j, 0, &c->P[j], &c->N[j]);
+    c->y[j] = c->P[j] + c->N[j];
+    return cx_abs(c->x[j]) <= lim && c->P[j] <= lim && -c->N[j] <= lim;
+}
+/* the gate condition |y| < sum|terms| * 2^-p with y != 0, in integers */
+static int cx_below_half_ulp(cx_t const *c, unsigned j, int p)
+{
+    /* P + |N| <= 2^(p+1): only |y| = 1 can satisfy it (the test on |y| also keeps the shift inside __int128) */
+    return c->y[j] != 0 && cx_abs(c->y[j]) < 4 && (cx_abs(c->y[j]) << p) < c->P[j] - c->N[j];
+}
+/* choose x[j] such that y[j] = d, |d| small */
+static void cx_solve(vf_rng *r, cx_t *c, unsigned j)
+{
+    i128 P, N, rest, d;
+    int a0 = abs(c->num[0]), t;
+    cx_terms(c, j, 1, &P, &N);
+    rest = P + N;
+    d = vf_chance(r, 5, 8) ? 1 : vf_chance(r, 1, 2) ? (i128)vf_range(r, 2, 3) : (i128)vf_range(r, 4, 8);
+    if (vf_chance(r, 1, 2)) { d = -d; }
+    for (t = 0; t < a0 && (d - rest) % a0 != 0; ++t) { d += d > 0 ? 1 : -1; } /* a0 consecutive values: one is divisible */
+    c->x[j] = (d - rest) / c->num[0];
+}
+static int cx_gen(vf_rng *r, cx_t *c, int p)
+{
+    int const sb = p >= 53 ? 12 : 3, nb = p >= 53 ? 8 : 1; /* shape amplitude 2^sb, perturbation amplitude 2^nb */
+    i128 const half = (i128)1 << (p - 1);
+    i128 xs[CX_MAXL], P0, N0, M0, Pt, m;
+    unsigned i, j, more;
+    int noisy = (int)vf_below(r, 2), cls = (int)vf_below(r, 4);
+    memset(c, 0, sizeof *c);
+    if (vf_chance(r, 1, 8))
+    { /* the simplest instance, an accumulator: y[k] = x[k] + y[k-1];  x = A, d - A */
+        c->nn = c->nd = 1;
+        c->num[0] = 1;
+        c->den[0] = -1;
+    }
+    else
+    {
+        c->nn = 1 + (unsigned)vf_below(r, 4);
+        c->nd = 1 + (unsigned)vf_below(r, 3);
+        c->num[0] = vf_chance(r, 3, 4) ? 1 : (int)vf_range(r, 2, 3);
+        if (vf_chance(r, 1, 2)) { c->num[0] = -c->num[0]; }
+        for (i = 1; i < c->nn; ++i) { c->num[i] = (int)vf_range(r, -3, 3); }
+        for (i = 0; i < c->nd; ++i) { c->den[i] = (int)vf_range(r, -3, 3); }
+    }
+    c->kc = 1 + (unsigned)vf_below(r, 6);
+    for (j = 0; j < c->kc; ++j)
+    {
+        i128 A = (i128)1 << sb;
+        xs[j] = cls == 0 ? (j == 0 ? A : 0) : cls == 1 ? A : (i128)vf_range(r, -(int64_t)A, (int64_t)A);
+        c->x[j] = xs[j];
+        (void)cx_ok(c, j, 120); /* shape: far below any limit, fills y */
+    }
+    cx_terms(c, c->kc, 1, &P0, &N0);
+    M0 = P0 > -N0 ? P0 : -N0;
+    if (M0 == 0) { return 0; }
+    switch (vf_below(r, 5))
+    {
+    case 0: Pt = half + 1 + (i128)vf_below(r, 1024); break;      /* sum|terms| just above 2^p: the gate condition barely holds (or not) */
+    case 1: Pt = 2 * half - (i128)vf_below(r, 1024); break;      /* just below the exactness limit */
+    default: Pt = half + 1 + (i128)vf_below(r, (uint64_t)1 << (p > 60 ? 60 : p - 1)) * (p > 60 ? 8 : 1); break;
+    }
+    m = Pt < half + 2048 ? (Pt + M0 - 1) / M0 : Pt / M0; /* lower edge: round up, m*M0 in [Pt, Pt+M0); otherwise down, m*M0 in (Pt-M0, Pt] */
+    if (m == 0) { return 0; }
+    for (j = 0; j < c->kc; ++j)
+    {
+        c->x[j] = m * xs[j] + (noisy ? (i128)vf_range(r, -(1 << nb), 1 << nb) : 0);
+        if (!cx_ok(c, j, p)) { return 0; }
+    }
+    cx_solve(r, c, c->kc);
+    if (!cx_ok(c, c->kc, p)) { return 0; }
+    c->L = c->kc + 1;
+    more = 1 + (unsigned)vf_below(r, 4);
+    for (j = c->kc + 1; j <= c->kc + more && j < CX_MAXL; ++j)
+    {
+        switch (vf_below(r, 6))
+        {
+        case 0: case 1: case 2: cx_solve(r, c, j); break;
+        case 3: c->x[j] = (i128)vf_range(r, -(4 << nb), 4 << nb); break;
+        case 4: c->x[j] = c->x[j - 1]; break;
+        default: c->x[j] = -c->x[j - 1]; break;
+        }
+        if (!cx_ok(c, j, p)) { break; }
+        c->L = j + 1;
+    }
+    return 1;
+}
+/* the model's run on another input sequence (same coefficients): length up to which every step is exact */
+static unsigned cx_rerun(cx_t *c, i128 const *x, unsigned L, int p)
+{
+    unsigned j;
+    for (j = 0; j < L; ++j)
+    {
+        c->x[j] = x[j];
+        if (!cx_ok(c, j, p)) { break; }
+    }
+    return j;
+}
+static char const *cx_fmt(char *buf, size_t cap, i128 const *v, unsigned n)
+{
+    size_t o = 0;
+    buf[0] = 0;
+    for (unsigned i = 0; i < n && o + 24 < cap; ++i) { o += (size_t)snprintf(buf + o, cap - o, "%s%lld", i ? "," : "", (long long)v[i]); }
+    return buf;
+}
+static char const *cx_fmt_i(char *buf, size_t cap, int const *v, unsigned n)
+{
+    size_t o = 0;
+    buf[0] = 0;
+    for (unsigned i = 0; i < n && o + 8 < cap; ++i) { o += (size_t)snprintf(buf + o, cap - o, "%s%d", i ? "," : "", v[i]); }
+    return buf;
+}
+
+/* compares a library run with the integer model; returns the number of agreeing leading steps */
+static unsigned cx_judge(cx_t const *c, double const *ylib, unsigned L, int e, char const *what)
+{
+    int seen = 0; /* a step with a cancellation by more than 40 bits at or before the first mismatch */
+    for (unsigned k = 0; k < L; ++k)
+    {
+        double ref = ldexp((double)(long long)c->y[k], e);
+        if (c->y[k] != 0 && (cx_abs(c->y[k]) << 40) < c->P[k] - c->N[k]) { seen = 1; }
+        if (!(ylib[k] == ref))
+        {
+            vf_viol(seen ? "tf_iter/exact-cancellation-result-not-exact" : "tf_iter/output-ne-difference-equation/exact",
+                    "%s, step %u of %u: a_tf_iter returned %a (%.17g), the exact integer recurrence gives %a = %lld * 2^%d; positive terms sum to %lld, negative terms to %lld "
+                    "(grid units 2^%d; every subset sum is an integer of magnitude <= 2^53, so every summation order is exact); %s",
+                    what, k, L, ylib[k], ylib[k], ref, (long long)c->y[k], e, (long long)c->P[k], (long long)c->N[k], e, g_desc);
+            return k;
+        }
+    }
+    return L;
+}
+
+static void tf_cancel_case(vf_rng *r)
+{
+    static int const SCALES[] = {0, 0, -40, 200, -900, 900, -960, DBL_MIN_EXP - 1, DBL_MAX_EXP - 1 - 53 - 3};
+    int const p = 53;
+    cx_t c, cv, cw;
+    scn_t s;
+    double num[4], den[3];
+    char b1[64], b2[64], b3[300];
+    unsigned k, L, tries, hits = 0;
+    int e, guarded = (int)vf_below(r, 2);
+    for (tries = 0; tries < 8 && !cx_gen(r, &c, p); ++tries) { VF_COUNT("tf-exact-cancellation-draw-rejected"); }
+    if (tries == 8) { VF_COUNT("tf-exact-cancellation-no-history"); return; }
+    e = vf_chance(r, 1, 4) ? (int)vf_range(r, DBL_MIN_EXP - 1, DBL_MAX_EXP - 1 - p - 3) : SCALES[vf_below(r, sizeof SCALES / sizeof *SCALES)];
+    /* grid unit 2^e >= DBL_MIN: every non-zero quantity is a normal number; 8 * 2^p * 2^e finite (see the comment above) */
+    if (e < DBL_MIN_EXP - 1 || e + p + 3 > DBL_MAX_EXP - 1) { VF_COUNT("tf-exact-cancellation-scale-skipped"); return; }
+    L = c.L;
+    for (k = 0; k < 4; ++k) { num[k] = c.num[k]; }
+    for (k = 0; k < 3; ++k) { den[k] = c.den[k]; }
+    memset(&s, 0, sizeof s);
+    coef_alloc(&s.num[0], c.nn, num);
+    coef_alloc(&s.den[0], c.nd, den);
+    for (k = 0; k < L; ++k)
+    {
+        X0[k] = ldexp((double)(long long)c.x[k], e);
+        hits += (unsigned)cx_below_half_ulp(&c, k, p);
+        if (c.y[k] != 0) { VF_MAX("tf-exact-cancellation-log2(sum|terms|/|y|)", log2((double)(c.P[k] - c.N[k]) / (double)cx_abs(c.y[k]))); }
+    }
+    snprintf(g_desc, sizeof g_desc, "exact cancellation class: num=[%s] den=[%s] scale 2^%d, inputs (grid units) [%s], first solved step %u", cx_fmt_i(b1, sizeof b1, c.num, c.nn),
+             cx_fmt_i(b2, sizeof b2, c.den, c.nd), e, cx_fmt(b3, sizeof b3, c.x, L), c.kc);
+    lib_run(&s, X0, L, YL0, guarded, 1, "cancel/u");
+    VF_ADD("tf-exact-cancellation-bitwise", L);
+    VF_ADD("tf-exact-cancellation-below-half-ulp-of-term-sum", hits);
+    if (!hits) { VF_COUNT("tf-exact-cancellation-history-without-sub-half-ulp-step"); }
+    cx_judge(&c, YL0, L, e, "run u");
+    vf_distinct(vf_hash64(vf_hash64(0xC16CA, c.nn), c.nd));
+
+    /* superposition w = a*u + b*v on such a history, if the runs on v and w stay exact beyond the first cancelling step:
+       v small (then the output of w at the cancelling step is d + b*resp(v): a gated d would show as a broken identity even
+       without the model), or v = -u + small (then w = a*small: the large parts cancel between the two RUNS) */
+    {
+        i128 xv[CX_MAXL], xw[CX_MAXL];
+        int a = vf_chance(r, 1, 2) ? 1 : -1, b, kind = (int)vf_below(r, 2);
+        unsigned Lv, Lw, L2;
+        if (kind == 0) { do { b = (int)vf_range(r, -4, 4); } while (b == 0); }
+        else { b = a; }
+        for (k = 0; k < L; ++k)
+        {
+            i128 small = vf_chance(r, 1, 3) ? 0 : (i128)vf_range(r, -1024, 1024);
+            xv[k] = kind == 0 ? small : -c.x[k] + small;
+            xw[k] = a * c.x[k] + b * xv[k];
+        }
+        cv = c;
+        cw = c;
+        Lv = cx_rerun(&cv, xv, L, p);
+        Lw = cx_rerun(&cw, xw, L, p);
+        L2 = Lv < Lw ? Lv : Lw;
+        if (L2 > c.kc)
+        {
+            for (k = 0; k < L2; ++k)
+            {
+                X1[k] = ldexp((double)(long long)xv[k], e);
+                X2[k] = ldexp((double)(long long)xw[k], e);
+            }
+            snprintf(g_desc, sizeof g_desc, "exact cancellation class, superposition %d*u+%d*v (v = %s): num=[%s] den=[%s] scale 2^%d, u (grid units) = [%s], first solved step %u", a, b,
+                     kind ? "-u + small" : "small", cx_fmt_i(b1, sizeof b1, c.num, c.nn), cx_fmt_i(b2, sizeof b2, c.den, c.nd), e, cx_fmt(b3, sizeof b3, c.x, L), c.kc);
+            lib_run(&s, X1, L2, YL1, guarded, 0, "cancel/v");
+            lib_run(&s, X2, L2, YL2, !guarded, 0, "cancel/a*u+b*v");
+            VF_ADD("tf-exact-cancellation-superposition", L2);
+            for (k = 0; k < L2; ++k)
+            {
+                /* binary128: all three values are integers of at most 54 bits times 2^e, the right-hand side is exact */
+                __float128 rhs = (__float128)a * YL0[k] + (__float128)b * YL1[k];
+                if (!((__float128)YL2[k] == rhs))
+                {
+                    vf_viol("tf/superposition/exact-cancellation", "step %u: resp(%d*u+%d*v)=%a but %d*resp(u)+%d*resp(v)=%a (resp(u)=%a resp(v)=%a; model: resp(u)=%lld resp(v)=%lld grid units); %s", k, a, b,
+                            YL2[k], a, b, (double)rhs, YL0[k], YL1[k], (long long)c.y[k], (long long)cv.y[k], g_desc);
+                    break;
+                }
+            }
+            VF_ADD("tf-exact-cancellation-bitwise", 2 * L2);
+            for (hits = 0, k = 0; k < L2; ++k) { hits += (unsigned)cx_below_half_ulp(&cv, k, p) + (unsigned)cx_below_half_ulp(&cw, k, p); }
+            VF_ADD("tf-exact-cancellation-below-half-ulp-of-term-sum", hits);
+            cx_judge(&cv, YL1, L2, e, "run v");
+            cx_judge(&cw, YL2, L2, e, "run a*u+b*v");
+        }
+        else { VF_COUNT("tf-exact-cancellation-superposition-not-exact-skipped"); }
+    }
+    if (vf_want_sample() && !g_sampled[7] && c.nn >= 2 && c.nd >= 2 && cx_below_half_ulp(&c, c.kc, p))
+    {
+        g_sampled[7] = 1, vf_sample("a_tf exact cancellation num=[%s] den=[%s], inputs [%s] * 2^%d: at step %u the positive terms sum to %lld and the negative ones to %lld grid units "
+                  "(every subset sum < 2^53 in magnitude, exact in any order), output %lld * 2^%d returned exactly (%a); %u steps equal to the integer recurrence",
+                  cx_fmt_i(b1, sizeof b1, c.num, c.nn), cx_fmt_i(b2, sizeof b2, c.den, c.nd), cx_fmt(b3, sizeof b3, c.x, L), e, c.kc, (long long)c.P[c.kc], (long long)c.N[c.kc],
+                  (long long)c.y[c.kc], e, YL0[c.kc], L);
+    }
+    scn_free(&s);
 }
 
 /* ---------------------------------------------------------------- real-valued regime */
@@ -1247,7 +1555,7 @@ static void tf_repo_case(void)
 }
 
 /* ---------------------------------------------------------------- plan */
-enum { K_TF_REPO, K_TF_EXACT, K_TF_REAL, K_LPF, K_LPF_CONV, K_HPF, K_HPF_DECAY, K_RC_EXACT, K_GEN };
+enum { K_TF_REPO, K_TF_EXACT, K_TF_CANCEL, K_TF_REAL, K_LPF, K_LPF_CONV, K_HPF, K_HPF_DECAY, K_RC_EXACT, K_GEN };
 typedef struct { int kind; unsigned arg; } plan_t;
 static plan_t *plan;
 static uint64_t nplan;
@@ -1281,6 +1589,7 @@ static void vf_init(void)
         for (i = 0; i < 8; ++i) { plan_add(K_LPF_CONV, i); plan_add(K_HPF_DECAY, i); }
         for (i = 0; i < 16; ++i) { plan_add(K_RC_EXACT, i); }
         for (i = 0; i < 4; ++i) { plan_add(K_GEN, i); }
+        for (i = 0; i < 48; ++i) { plan_add(K_TF_CANCEL, i); }
     }
 }
 static uint64_t vf_ncases(int tier) { (void)tier; return nplan; }
@@ -1295,6 +1604,7 @@ static void vf_case(uint64_t c, vf_rng *r)
     case K_TF_EXACT:
         for (int cls = 0; cls < NCLASS; ++cls) { tf_exact_cell(r, nn, nd, cls); }
         break;
+    case K_TF_CANCEL: tf_cancel_case(r); break;
     case K_TF_REAL:
         for (int cls = 0; cls < NCLASS; ++cls) { tf_real_cell(r, nn, nd, cls); }
         break;
